@@ -90,7 +90,7 @@ func evMemFlushWait() InstrPred {
 	}
 }
 
-// ruleJournalWrite: C04.1 / C10.6 — a write group is ONE journal record, written, flushed and
+// ruleJournalWrite: C04.1 / C10.7 — a write group is ONE journal record, written, flushed and
 // (if requested) synced before success; the record is the unit recovery keeps or drops as a whole.
 func ruleJournalWrite(p *Prog, r *Report, rule string) {
 	r.Begin(rule, "E-ORD", "journal: in writeJournal the record is written, flushed to the file and (sync requested) synced before any success return; one record per write group", 6)
@@ -209,6 +209,9 @@ func runC04(p *Prog, r *Report) {
 	}
 	if want("C04.11") {
 		ruleTrSeqAfterFlush(p, r, "C04.11")
+	}
+	if want("C04.26") {
+		ruleRecordReaderFailure(p, r, "C04.26")
 	}
 	if want("C04.25") {
 		ruleReuseFileNum(p, r, "C04.25")
